@@ -156,6 +156,21 @@ def model_rows(wntr, wn, approx):
     return mbrows, lrows, m
 
 
+def zoo_constraints(wntr, mode, approx):
+    """(wn, m, {junction: mass-balance constraint}, {link: head-flow constraint}) of the zoo -- the very objects the
+    generated rows were printed from (used by the random-point agreement of `con.evaluate()` with the Lean `eval`)"""
+    wn = build_zoo(wntr, mode)
+    m, upd = wntr.sim.hydraulics.create_hydraulic_model(wn, HW_approx=approx)
+    mb = getattr(m, "mass_balance" if mode in ("DD", "DDA") else "pdd_mass_balance")
+    mbc = {jn: mb[jn] for jn in wn.junction_name_list if jn in mb}
+    lc = {}
+    for ln, link in wn.links():
+        for nm in CONDICTS[link_kind(link)]:
+            if hasattr(m, nm) and ln in getattr(m, nm):
+                lc[ln] = getattr(m, nm)[ln]
+    return wn, m, mbc, lc
+
+
 # ----------------------------------------------------------------------------- symbolic numbers
 
 
@@ -432,7 +447,7 @@ def gen_c02(wntr):
         out.append("def %s : Rat := %s" % (k, rat(v)))
     out.append("")
     info = {}
-    names = {}
+    znames = {}
     lit = None
     stmap = {int(LinkStatus.Closed): ".closed", int(LinkStatus.Open): ".opened", int(LinkStatus.Active): ".active"}
     for approx in ("default", "piecewise"):
@@ -440,7 +455,7 @@ def gen_c02(wntr):
         _, lrows, m = model_rows(wntr, wn, approx)
         vs, ps, idx = _index([t for _, t in lrows])
         ns = approx.capitalize()
-        names[approx] = dict(vars=vs, params=ps, rows=[ln for ln, _ in lrows])
+        znames[approx] = dict(vars=vs, params=ps, rows=[ln for ln, _ in lrows])
         if approx == "default":
             lit = read_row_literals(lrows, wn)
             out.append("/-- float literals written inside constraint.py (read off the default Hazen-Williams and power-pump rows) -/")
@@ -500,16 +515,24 @@ def gen_c02(wntr):
             out.append("def fit%d%s : Expr := %s" % (npts, lab, amldump.tree_to_lean(t, idx)))
     out.append("")
     out.append("end Wntr.Gen.RowsC02")
-    return "\n".join(out) + "\n", dict(hist=info, hw=hw, pc=pc, tol=tol, spl=spl, names=names, lit=lit)
+    return "\n".join(out) + "\n", dict(hist=info, hw=hw, pc=pc, tol=tol, spl=spl, names=znames, lit=lit)
+
+
+def write_c01(wntr):
+    t1, i1 = gen_c01(wntr)
+    vlib.write_if_changed(os.path.join(vlib.GEN, "RowsC01.lean"), t1)
+    return i1
+
+
+def write_c02(wntr):
+    t2, i2 = gen_c02(wntr)
+    vlib.write_if_changed(os.path.join(vlib.GEN, "RowsC02.lean"), t2)
+    return i2
 
 
 def run(ctx=None):
     wntr = vlib.import_wntr()
-    t1, i1 = gen_c01(wntr)
-    t2, i2 = gen_c02(wntr)
-    vlib.write_if_changed(os.path.join(vlib.GEN, "RowsC01.lean"), t1)
-    vlib.write_if_changed(os.path.join(vlib.GEN, "RowsC02.lean"), t2)
-    return i1, i2
+    return write_c01(wntr), write_c02(wntr)
 
 
 if __name__ == "__main__":
